@@ -139,6 +139,14 @@ let run line =
          | Some (Some res) ->
            (match ncall nt res with None -> "RAISE" | Some app' ->
              (match py_eq f n app' app with None -> "FUEL" | Some b -> b2s b ^ " " ^ tuple res))))
+  | "HIST" -> let k = int t in
+      let item () = (match next t with
+        | "MS" -> let p = term t in let i = term t in let dl = delta t in
+                  fuelled (Option.map (function None -> "NONE" | Some d -> showd d) (match_single f n p i dl))
+        | "ML" -> let m = int t in let eqs = times m (fun () -> let p = term t in let i = term t in (p, i)) in
+                  fuelled (Option.map (function None -> "NONE" | Some d -> showd d) (match_list f n eqs []))
+        | _ -> raise Bad) in
+      String.concat " | " (times k item)
   | "NC" -> let nt = notation t in let k = int t in let args = times k (fun () -> term t) in
             (match ncall nt args with None -> "RAISE" | Some p -> show p)
   | "NM" -> let nt = notation t in let p = term t in
